@@ -895,7 +895,7 @@ func (lunar *Lunar) GetTimePositionYinGuiDesc() string {
 }
 
 func (lunar *Lunar) GetTimePositionFu() string {
-	return LunarUtil.POSITION_FU[lunar.timeGanIndex+1]
+	return LunarUtil.POSITION_FU_2[lunar.timeGanIndex+1]
 }
 
 func (lunar *Lunar) GetTimePositionFuDesc() string {
